@@ -716,22 +716,25 @@ class MessageType:
         # kingdoms/{kingdom}/phyla/{phylum}
         # becomes the regex
         # ^kingdoms/(?P<kingdom>.+?)/phyla/(?P<phylum>.+?)$
-        parsing_regex_str = (
-            "^"
-            + self.PATH_ARG_RE.sub(
-                # We can't just use (?P<name>[^/]+) because segments may be
-                # separated by delimiters other than '/'.
-                # Multiple delimiter characters within one schema are allowed,
-                # e.g.
-                # as/{a}-{b}/cs/{c}%{d}_{e}
-                # This is discouraged but permitted by AIP4231
-                lambda m: "(?P<{name}>.+?)".format(name=m.groups()[0]),
-                self.resource_path or "",
-            )
-            + "$"
-        )
+        # We can't just use (?P<name>[^/]+) because segments may be
+        # separated by delimiters other than '/'.
+        # Multiple delimiter characters within one schema are allowed,
+        # e.g.
+        # as/{a}-{b}/cs/{c}%{d}_{e}
+        # This is discouraged but permitted by AIP4231
+        #
+        # The literal text between the segments is escaped so that
+        # delimiters such as '.' only match themselves.
+        path = self.resource_path or ""
+        parsing_regex_str = "^"
+        pos = 0
+        for m in self.PATH_ARG_RE.finditer(path):
+            parsing_regex_str += re.escape(path[pos : m.start()])
+            parsing_regex_str += "(?P<{name}>.+?)".format(name=m.groups()[0])
+            pos = m.end()
+        parsing_regex_str += re.escape(path[pos:]) + "$"
         # Special case for wildcard resource names
-        if parsing_regex_str == "^*$":
+        if parsing_regex_str == r"^\*$":
             parsing_regex_str = "^.*$"
 
         return parsing_regex_str
